@@ -101,6 +101,26 @@ RULE = {(("sm", GENERIC["after"]), "a"): (("b",), 2)}
 
 # -- oracles -------------------------------------------------------------------------------------
 
+def check_fifo(env, calls, order):
+    """O9: one queue, first in first out, whoever sent: an event whose send() had already
+    returned before the callback that sends a nested event had even begun was enqueued first and
+    is processed first."""
+    pos = {t: i for i, t in enumerate(order)}
+    for (cid, _ev, tag, _r) in env.nested_returns:
+        ptag = tag.rsplit("/", 1)[0]
+        parent = next((r for r in env.flat if r.tag == ptag and r.cid == cid), None)
+        if parent is None or tag not in pos:
+            continue
+        for c in calls:
+            if c.get("ret") in (None, float("inf")) or c["tag"] not in pos:
+                continue
+            if c["ret"] < parent.seq_begin and pos[c["tag"]] > pos[tag]:
+                return (f"O9 FIFO: {c['tag']} was enqueued (its send had returned at t={c['ret']}) "
+                        f"before {parent.brief()} began (t={parent.seq_begin}) and sent {tag}, "
+                        f"yet {tag} was processed first (order {order})")
+    return None
+
+
 def check_results(env, calls, idents):
     """O8: what a sender's call returns is the result of the first event that very call
     processed (the caller's thread drained it), built from that event's callbacks only, and
@@ -532,7 +552,7 @@ def run_threads(ch, events, nested, files, only_lines=None, stateful=False):
     if isinstance(r, tuple) and r[0] is None and not anon and not gated and not fault:
         # (on the gated machine an ignored event leaves no callback behind: which event a call
         # processed first cannot be observed there)
-        r8 = check_results(env, calls, idents)
+        r8 = check_results(env, calls, idents) or check_fifo(env, calls, r[1])
         if r8:
             r = r8
     return (r if isinstance(r, tuple) else (r, None)) + (s.npoints,)
@@ -659,7 +679,7 @@ def explore_variant(res, half, vi, variant, tier, roots=None, root_run=True):
 def _cat(msg):
     if "O4K" in msg:
         return "event-enqueued-while-failing-drainer-holds-the-lock-is-stranded"
-    for key in ("NONDETERMINISTIC", "O1", "O2", "O3", "O4", "O5", "O7", "O8", "F1", "F2", "F3", "F4",
+    for key in ("NONDETERMINISTIC", "O1", "O2", "O3", "O4", "O5", "O7", "O8", "O9", "F1", "F2", "F3", "F4",
                 "F5", "deadlock", "hang", "raised",
                 "never finished", "suspended", "pending"):
         if key in msg:
